@@ -683,16 +683,16 @@ class URL:
             if dest.path.startswith('/'):   # absolute path
                 new_path_parts = list(dest.path_parts)
             else:  # relative path
-                base_parts = list(self.path_parts[:-1])
-                if self.host and not base_parts:
-                    # RFC 3986 5.2.3: an empty base path under an
-                    # authority merges as "/"
-                    base_parts = ['']
-                new_path_parts = base_parts + list(dest.path_parts)
+                new_path_parts = list(self.path_parts[:-1]) \
+                               + list(dest.path_parts)
         else:
             new_path_parts = list(self.path_parts)
             if not query_params:
                 query_params = self.query_params
+        if (dest.host or self.host) and new_path_parts[:1] != ['']:
+            # RFC 3986 3.3, 5.2.3: under an authority the path is rooted
+            # (an empty base path merges as "/")
+            new_path_parts.insert(0, '')
 
         ret = self.from_parts(scheme=dest.scheme or self.scheme,
                               host=dest.host or self.host,
